@@ -22,6 +22,7 @@ import (
 	"os"
 	"os/exec"
 	"path/filepath"
+	"regexp"
 	"runtime/debug"
 	"sort"
 	"strconv"
@@ -43,6 +44,7 @@ const (
 	maxInput       = 64 * 1024
 	knownTruncID   = "C16-truncated-utf8-hang"
 	knownNamesID   = "C16-truncated-utf8-hang-css-names"
+	knownBrowserID = "C16-browser-map-recursion"
 	watchdogWall   = 10 * time.Second // in-process suspicion threshold (≥100× the normal time of a ≤64 KB input)
 	hangCPU        = 20 * time.Second // CPU time of a fresh child after which the call counts as not terminating
 	hangWall       = 600 * time.Second
@@ -615,8 +617,8 @@ func inKnownClass(sub string, raw []byte) string {
 		}
 	case "config", "fuzzconfig":
 		var c BCase
-		if json.Unmarshal(raw, &c) == nil && bcaseKnown(c) {
-			return knownTruncID
+		if json.Unmarshal(raw, &c) == nil {
+			return bcaseKnownID(c)
 		}
 	}
 	return ""
@@ -628,16 +630,32 @@ func scaseKnown(c SCase) bool {
 	return false
 }
 
-func bcaseKnown(c BCase) bool {
-	if bits(c.Opt, bSourcemap, 2) == 0 || bit(c.Opt, bNoSrcCont) {
-		return false
-	}
-	for _, b := range c.Files {
-		if truncatedTail(b) {
+var browserSelfRe = regexp.MustCompile(`:\s*"pkg(/[^"]*)?"`)
+
+// browserMapSelfReference: a package.json of the dependency `pkg` has a "browser" field and some string value
+// that is a package path into `pkg` itself: the shape that makes the resolver remap pkg/x -> pkg/x forever.
+func browserMapSelfReference(c BCase) bool {
+	for p, b := range c.Files {
+		if strings.HasPrefix(p, "node_modules/pkg/") && strings.HasSuffix(p, "package.json") && bytes.Contains(b, []byte(`"browser"`)) && browserSelfRe.Match(b) {
 			return true
 		}
 	}
 	return false
+}
+
+func bcaseKnownID(c BCase) string {
+	if browserMapSelfReference(c) {
+		return knownBrowserID
+	}
+	if bits(c.Opt, bSourcemap, 2) == 0 || bit(c.Opt, bNoSrcCont) {
+		return ""
+	}
+	for _, b := range c.Files {
+		if truncatedTail(b) {
+			return knownTruncID
+		}
+	}
+	return ""
 }
 
 // ----------------------------------------------------------------------------- canary
@@ -1146,7 +1164,12 @@ func triageSlow(sub string, raw []byte) slowVerdict {
 		return slowVerdict{Kind: "unconfirmed", Raw: raw, Detail: note}
 	}
 	path := hangReplayPath(sub, raw)
-	origExtreme, _ := extremeNesting(caseBytes(sub, raw))
+	// the nesting exemption only makes sense where the case IS one input text; a project tree or a source-map
+	// payload has no business being slow
+	origExtreme := false
+	if withBytes(sub, raw, nil) != nil {
+		origExtreme, _ = extremeNesting(caseBytes(sub, raw))
+	}
 	if !origExtreme {
 		writeHang(path, sub, raw, "not yet minimised", true)
 		markHangAnnounced()
